@@ -200,6 +200,40 @@ func (x *FnCtx) binop(op token.Token, a, b *Term, t types.Type, bt types.Type, s
 			}
 			return tb.IntB(new(big.Int).Xor(a.Val, b.Val))
 		}
+		// x | c, x ^ c with a constant of few set bits: exact, bit by bit
+		for _, p := range [][2]*Term{{a, b}, {b, a}} {
+			c := p[1]
+			if !c.IsConst() || c.Val.Sign() < 0 || c.Val.BitLen() > w {
+				continue
+			}
+			pop := 0
+			for k := 0; k < c.Val.BitLen(); k++ {
+				if c.Val.Bit(k) == 1 {
+					pop++
+				}
+			}
+			if pop > 8 || signed {
+				continue
+			}
+			r := p[0]
+			for k := 0; k < c.Val.BitLen(); k++ {
+				if c.Val.Bit(k) == 0 {
+					continue
+				}
+				bit := tb.Mod(tb.Div(p[0], tb.IntB(pow2(k))), tb.IntC(2))
+				if op == token.OR {
+					r = tb.Add(r, tb.Ite(tb.Eq(bit, tb.IntC(1)), tb.IntC(0), tb.IntB(pow2(k))))
+				} else {
+					r = tb.Add(r, tb.Ite(tb.Eq(bit, tb.IntC(1)), tb.IntB(new(big.Int).Neg(pow2(k))), tb.IntB(pow2(k))))
+				}
+			}
+			if bb := x.bitsOf(p[0]); bb >= 0 {
+				x.setBits(r, max(bb, c.Val.BitLen()))
+			} else {
+				x.setBits(r, w)
+			}
+			return r
+		}
 	case token.SHL:
 		if k, ok := constShift(b); ok {
 			r := tb.Mul(a, tb.IntB(pow2(k)))
